@@ -60,6 +60,7 @@ func familySymbols(fn *ssa.Function) map[string]bool {
 
 func init() {
 	register("C01", func(c *Ctx) {
+		c01EveryNodeSetKept(c)
 		// (concurrent-capture) function literals that run concurrently do not share a written local (engine/concap.go)
 		concurrentCaptureRule(c, "concurrent-capture", func(pk string) bool {
 			return strings.HasPrefix(pk, "core/trie") || pk == "core/state" || pk == "core/deprecatedstate" || pk == "core/crypto"
@@ -791,5 +792,53 @@ func c01FreshLeafValue(c *Ctx) {
 	}
 	if n < 2 {
 		c.und("fresh-leaf-value", "trie2.Update callers", "", fmt.Sprintf("only %d looped Update calls found", n))
+	}
+}
+
+// c01EveryNodeSetKept: (commit-nodes, every-set clause) what a commit produced reaches the database set by set: in package
+// trienode the methods of MergeNodeSet that walk the per-owner child sets (Flatten, Merge, MergeSet …) take every set over —
+// the map update / append inside the loop is guarded by nothing but loop control and error checks. Seeded change C01-N skips
+// sets with `updates == 0` in Flatten: the deletion-only set of a storage trie that lost all its keys is dropped, the stale
+// nodes (root included) stay on disk, and the next write to that contract commits to the resurrected slots.
+func c01EveryNodeSetKept(c *Ctx) {
+	p := c.P
+	n := 0
+	for _, fn := range p.sortedFuncs() {
+		if pkgRelOf(fn) != "core/trie2/trienode" || fn.Origin() != nil || fn.Signature.Recv() == nil || !strings.Contains(fn.Signature.Recv().Type().String(), "MergeNodeSet") || strings.HasSuffix(p.Pos(fnPos(fn)), "_test.go") {
+			continue
+		}
+		allInstrsOne(fn, func(in ssa.Instruction) {
+			mu, ok := in.(*ssa.MapUpdate)
+			if !ok || !inSameLoop(in.Block(), in.Block()) {
+				return
+			}
+			// only the walks over the child sets
+			overSets := false
+			for _, b := range fn.Blocks {
+				for _, i2 := range b.Instrs {
+					if r, ok := i2.(*ssa.Range); ok && strings.HasSuffix(term(r.X), ".ChildSets") {
+						overSets = true
+					}
+				}
+			}
+			if !overSets {
+				return
+			}
+			n++
+			var bad []string
+			for _, cj := range p.mustHoldAt(mu) {
+				for _, a := range cj.list() {
+					if strings.HasSuffix(a, " == nil)") || strings.HasSuffix(a, " != nil)") || strings.Contains(a, "jump$") || (strings.HasPrefix(strings.TrimPrefix(a, "!"), "next(") && strings.HasSuffix(a, "#0")) {
+						continue
+					}
+					bad = append(bad, a)
+				}
+			}
+			bad = uniq(bad)
+			c.check(len(bad) == 0, "commit-nodes", qname(fn)+": every child set", p.Pos(posOf(in, fn)), "each per-owner node set is taken over unconditionally", "a per-owner node set is taken over only under "+clip(strings.Join(bad, "; "), 160)+": a set that carries nothing but deletions is dropped and the deleted nodes stay on disk")
+		})
+	}
+	if n == 0 {
+		c.und("commit-nodes", "trienode.MergeNodeSet", "", "no walk over the child sets found")
 	}
 }
